@@ -725,7 +725,7 @@ func main() {
 	run.Rule = "res: a real router.Connector configured by control.ConfigDataplane on a generated topology " +
 		"(driver 0) or by the Connector calls in a random order with 0-2 SetPortRange (driver 1); ranges '-', " +
 		"absent, 'all', [a,a], 31000-32767, random [a,b], pairs a topology cannot express; optional router-config " +
-		"override; then 6-10 probe packets built with slayers (IPv4/IPv6/SVC/invalid destinations; UDP, TCP, " +
+		"override; then 5-9 probe packets built with slayers (IPv4/IPv6/SVC/invalid destinations; UDP, TCP, " +
 		"SCMP echo/traceroute request/reply, SCMP errors quoting UDP/SCMP/TCP/truncated packets, other L4, " +
 		"truncated L4; optional HBH/E2E extensions; ports 0,1,a-1,a,b,b+1,65535,30041,random) through the real " +
 		"resolveLocalDst. topo: dispatched_ports strings through the real topology parser. const: EndhostPort. " +
@@ -834,11 +834,11 @@ func main() {
 		run.Add(kind, term, fmt.Sprint(c, descs), nontrivial, map[string]any{"cfg": c, "probes": descs}, tags...)
 	}
 
-	nc := run.Count(150, 6000)
+	nc := run.Count(120, 6000)
 	for i := 0; i < nc; i, id = i+1, id+1 {
 		r := rnd.Fork(uint64(i))
 		c := genCfg(r, i)
-		np := r.Range(6, 10)
+		np := r.Range(5, 9)
 		probes := make([]probe, np)
 		for j := range probes {
 			probes[j] = genProbe(r, c, c.knownProne())
